@@ -3,6 +3,7 @@
 From Coq Require Import List ZArith NArith Bool.
 Import ListNotations.
 From Verif Require Import C01.Lisp C01.Py C01.Gen C01.Sim C01.Top.
+From Verif Require C01.FLisp C01.FCorr C01.FRefuted.
 
 (** PARTIAL: for programs without a hoisting hazard the compiled code produces exactly the
     source-order effect trace (every traced sub-expression on the taken path once, none on
@@ -17,5 +18,19 @@ Theorem C02_hoist_refuted :
   exists e v tr tr', eval (fun _ => None) e = Some (v, tr) /\ run e = Some (v, tr') /\ tr <> tr'.
 Proof. exact Top.hoist_refuted. Qed.
 
+(** the same witness as a collection literal of the full fragment *)
+Theorem C02_hoist_literal_refuted :
+  exists e, FCorr.spec e = FLisp.RVal (FLisp.OVec [FLisp.OInt 1; FLisp.OInt 2]) [FLisp.OInt 1; FLisp.OInt 2]
+            /\ FCorr.model e = FLisp.RVal (FLisp.OVec [FLisp.OInt 1; FLisp.OInt 2]) [FLisp.OInt 2; FLisp.OInt 1] /\ FCorr.tag e = 1%N.
+Proof. exact FRefuted.hoist_refuted_full. Qed.
+
+(** a tail recur inside try/finally: the loop locals are rebound before the finally runs *)
+Theorem C02_recur_in_try_refuted :
+  exists e, FCorr.spec e = FLisp.RVal (FLisp.OInt 2) [FLisp.OInt 0; FLisp.OInt 1; FLisp.OInt 2]
+            /\ FCorr.model e = FLisp.RVal (FLisp.OInt 2) [FLisp.OInt 1; FLisp.OInt 2; FLisp.OInt 2] /\ FCorr.tag e = 16%N.
+Proof. exact FRefuted.recur_in_try_refuted. Qed.
+
 Print Assumptions C02_order_partial.
+Print Assumptions C02_recur_in_try_refuted.
+Print Assumptions C02_hoist_literal_refuted.
 Print Assumptions C02_hoist_refuted.
